@@ -218,8 +218,13 @@ def make_numpy(it):
         if is_scalar(x):
             return astype(it, x, dtype) if dtype is not None else x
         if isinstance(x, (list, tuple)):
+            if getattr(it, "lenient_numpy", False):
+                return Opaque("np.array([...])")
+            if any(isinstance(e, Opaque) or getattr(e, "opaque_like", False) for e in x):
+                return Opaque("np.array([...unknown...])")
             if all(not is_sym(e) and not isinstance(e, (Arr, Series)) for e in x):
-                return real_np.array(x, dtype=dtype) if dtype is not None and not hasattr(dtype, "typ") else real_np.array(x)
+                dt = dtype.py if isinstance(dtype, TypeTag) else (dtype.typ if hasattr(dtype, "typ") else dtype)
+                return real_np.array(x, dtype=dt) if dt is not None else real_np.array(x)
             return SmallVec(list(x))
         raise EngineError(f"np.array({type(x).__name__})")
 
@@ -285,6 +290,8 @@ def make_numpy(it):
         return it.call(it.builtins["sum"], [x], {})
 
     def hstack(it, xs, **k):
+        if isinstance(xs, Opaque) or getattr(it, "lenient_numpy", False):
+            return Opaque("np.hstack(...)")
         xs = list(xs)
         if all(isinstance(x, (Arr, Series)) for x in xs):
             return Cat([_arr(x) for x in xs])
@@ -324,10 +331,10 @@ def make_numpy(it):
         "array": nat(np_array, name="array"), "asarray": nat(np_array, name="asarray"),
         "zeros_like": nat(zeros_like, name="zeros_like"), "ones_like": nat(ones_like, name="ones_like"),
         "full_like": nat(full_like, name="full_like"), "empty_like": nat(zeros_like, name="empty_like"),
-        "zeros": nat(lambda it, n, dtype=None, **k: _alloc(it, n, False if "bool" in getattr(dtype, "__name__", str(dtype)) else 0.0), name="zeros"),
-        "ones": nat(lambda it, n, dtype=None, **k: _alloc(it, n, True if "bool" in getattr(dtype, "__name__", str(dtype)) else 1.0), name="ones"),
-        "full": nat(lambda it, n, v, dtype=None, **k: _alloc(it, n, v), name="full"),
-        "empty": nat(lambda it, n, dtype=None, **k: _alloc(it, n, 0.0), name="empty"),
+        "zeros": nat(lambda it, n=None, dtype=None, shape=None, **k: _alloc(it, n if n is not None else shape, False if "bool" in getattr(dtype, "__name__", str(dtype)) else 0.0), name="zeros"),
+        "ones": nat(lambda it, n=None, dtype=None, shape=None, **k: _alloc(it, n if n is not None else shape, True if "bool" in getattr(dtype, "__name__", str(dtype)) else 1.0), name="ones"),
+        "full": nat(lambda it, n=None, v=None, dtype=None, shape=None, fill_value=None, **k: _alloc(it, n if n is not None else shape, v if v is not None else fill_value), name="full"),
+        "empty": nat(lambda it, n=None, dtype=None, shape=None, **k: _alloc(it, n if n is not None else shape, 0.0), name="empty"),
         "any": nat(np_any, name="any"), "all": nat(np_all, name="all"), "sum": nat(np_sum, name="sum"),
         "isin": nat(np_isin, name="isin"), "in1d": nat(np_isin, name="in1d"),
         "hstack": nat(hstack, name="hstack"), "concatenate": nat(hstack, name="concatenate"),
@@ -345,7 +352,27 @@ def make_numpy(it):
     }
     it.builtins["__np_astype__"] = astype
 
+    def lenient(nv):
+        f0 = nv.fn
+
+        def f(it, *a, **k):
+            if getattr(it, "lenient_numpy", False) and any(
+                    isinstance(x, Opaque) or getattr(x, "opaque_like", False) for x in list(a) + list(k.values())):
+                out = k.get("out")
+                if out is not None and getattr(out, "opaque_like", False) and hasattr(out, "sym_setitem"):
+                    out.sym_setitem(it, None, None)      # a store through out= into a tracked view
+                    return out
+                return Opaque(f"np.{nv.name}(unknown)")
+            return f0(it, *a, **k)
+        return Native(f, pure=nv.pure, name=nv.name)
+    for k0, v0 in list(attrs.items()):
+        if isinstance(v0, Native):
+            attrs[k0] = lenient(v0)
+
     def default(attr):
+        if getattr(it, "lenient_numpy", False):
+            return Opaque(f"np.{attr}")      # frame-tracking mode: unknown numpy members are unknown pure values
+
         def fallback(it, *a, **k):
             if any(isinstance(x, Opaque) for x in list(a) + list(k.values())):
                 from .interp import _why
@@ -671,6 +698,15 @@ def table_attr(it, t, name):
                 return Series(t, col)
             return default
         return nat(get)
+    if name in ("itertuples", "iterrows"):
+        def rows(it, **k):
+            from .interp import ObjVal
+            attrs = dict(t.cols)
+            attrs["Index"] = t.index_e
+            attrs["name"] = t.index_e
+            row = ObjVal(None, attrs)
+            return RowsIter(t, row if name == "itertuples" else (t.index_e, row))
+        return nat(rows)
     if name == "groupby":
         def groupby(it, col, **k):
             v = t.cols[col]
@@ -748,3 +784,17 @@ def install(it):
     }, default=lambda attr: Opaque(f"pd.{attr}"))
     it.stub_modules["pandas"] = pd_ns
     return np_ns
+
+
+class RowsIter:
+    """df.itertuples() / df.iterrows(): the generic row as a record"""
+
+    def __init__(self, table, row):
+        self.table = table
+        self.row = row
+
+    def generic_row(self):
+        return self.table.space, True, self.row
+
+    def make_like(self, e):
+        return Arr(self.table.space, e, True)
